@@ -451,7 +451,14 @@ def finish(pid, tier, seed, level, res, t0, rule, nontrivial, evaluations, min_n
         cov.update(extra_cov)
     ev = {"property_id": pid, "tier": tier, "seed": int(seed), "level": level, "coverage": cov,
           "assumptions": assumptions, "wall_s": round(time.time() - t0, 2), "violations": len(new)}
-    json.dump(ev, open(os.path.join(VERIF, "evidence", pid + ".json"), "w"), indent=1)
+    # The committed evidence describes the registered commands run against /repo itself: replays and runs against a scratch
+    # copy of the repository (seeded-change experiments, maintainers' worktrees) must not overwrite it.
+    if os.environ.get("VERIF_NO_EVIDENCE") or os.path.realpath(REPO) != "/repo":
+        evpath = os.path.join(SCRATCH, ".out", "evidence-%s-%d.json" % (pid, os.getpid()))
+        os.makedirs(os.path.dirname(evpath), exist_ok=True)
+    else:
+        evpath = os.path.join(VERIF, "evidence", pid + ".json")
+    json.dump(ev, open(evpath, "w"), indent=1)
     if not keep_out and res.extra.get("outdir") and not new:
         shutil.rmtree(res.extra["outdir"], ignore_errors=True)
     log("[%s] tier=%s seed=%s evaluations=%d distinct_nontrivial=%d violations=%d known=%d inconclusive=%d wall=%.1fs" % (
